@@ -534,8 +534,17 @@ def gen_v2_rt(rng, thorough):
     return {"kind": "v2rt", "api": "rails" if rng.random() < 0.15 else "runtime", "src": src, "steps": steps}
 
 
+def _v1_defined_gotos(src):
+    """replace a `goto` whose checkpoint is not defined in the same flow (the loader rejects such a configuration as a whole)"""
+    out = []
+    for block in re.split(r"(?m)^(?=define )", src):
+        labels = set(re.findall(r"(?m)^\s*label (\w+)\s*$", block))
+        out.append(re.sub(r"(?m)^(\s*)goto (\w+)\s*$", lambda m: m.group(0) if m.group(2) in labels else m.group(1) + "bot say z", block))
+    return "".join(out)
+
+
 def gen_v1_rt(rng, depth):
-    src = "define user express greeting\n  \"hello\"\n\n" + gen_v1_src(rng, depth)
+    src = "define user express greeting\n  \"hello\"\n\n" + _v1_defined_gotos(gen_v1_src(rng, depth))
     steps = [["new"]]
     for _ in range(rng.choice([1, 2, 3])):
         r = rng.random()
@@ -548,7 +557,7 @@ def gen_v1_rt(rng, depth):
         else:
             body = ["user express greeting"]  # (the new flow is started at once: it must wait at its first element)
             _v1_block(rng, rng.randrange(1, depth + 1), False, 0, body, [])
-            steps.append(["dyn", "dyn%d" % rng.randrange(3), "\n".join(body) + "\n"])
+            steps.append(["dyn", "dyn%d" % rng.randrange(3), _v1_defined_gotos("\n".join(body) + "\n")])
     return {"kind": "v1rt", "src": src, "steps": steps}
 
 
